@@ -175,7 +175,7 @@ P["C19"] = dict(
     design="DESIGN.md section 3, C19")
 
 # properties whose check is registered (edit as groups are integrated)
-CLAIMED = ["C01", "C02", "C03", "C04", "C05", "C07", "C08", "C09", "C10", "C11", "C12", "C13", "C14", "C15", "C16", "C17", "C18", "C19"]
+CLAIMED = ["C%02d" % i for i in range(1, 20)]
 
 PENDING_REASON = ("check not yet registered in this round: the model group is still being completed (plan in DESIGN.md "
                   "section 3; not a claim that the technique cannot apply)")
